@@ -571,7 +571,21 @@ def rule_terminal(ctx):
             v = sym.rvalue(s["rv"])
             cons = C.constraints_for(ix, b, sym, bi)
             chk = [c for c in cons if c[3][0] == "call" and c[3][1] == "board::Board::is_in_check" and "current_turn" in c[0] and True in c[1]]
-            ext.append((bi, any(isinstance(x, tuple) and x[0] == "bin" and x[1].startswith("Add") and x[3] == ("const", 1, "u8") for x in walk(v)), bool(chk)))
+            # "exactly when": besides what every path through this point shares, being in check is the only condition
+            # (the first block behind the extension that every path reaches again: nearest post-dominator of the test)
+            test_blocks = [c[2] for c in chk]
+            join = None
+            if test_blocks:
+                pd = b.pdom().get(test_blocks[0]) or set()
+                cands = [x for x in pd if x >= 0 and x != test_blocks[0] and x != bi]
+                # the nearest: the one all the others post-dominate... i.e. that is post-dominated by every other candidate
+                for x in cands:
+                    if all(y == x or b.postdominates(y, x) for y in cands):
+                        join = x
+            shared = C.constraints_for(ix, b, sym, join) if join is not None else []
+            own = [c for c in cons if not any(c[0] == o[0] and c[1] == o[1] for o in shared)]
+            only = [c for c in own if not (c[3][0] == "call" and c[3][1] == "board::Board::is_in_check")]
+            ext.append((bi, any(isinstance(x, tuple) and x[0] == "bin" and x[1].startswith("Add") and x[3] == ("const", 1, "u8") for x in walk(v)), bool(chk) and not only))
     ctx.check(len(ext) == 1 and ext[0][1] and ext[0][2], "alpha_beta:check-extension", "depth += 1 exactly when the side to move is in check", b.where(ext[0][0] if ext else 0),
               bad_what="check extension sites: %s (expected one `depth += 1` under is_in_check(current_turn))" % ext)
     from . import c12
